@@ -41,18 +41,9 @@ TRIAGE_NULL = {
     ('_raise_syntax_error', 'self.lexer'): 'never None after __init__',
 }
 TRIAGE_PARTIAL = {
-    ('last_newline_lexpos', 'self.newline_idx[-1]'):
-        'newline_idx is initialised to [0] and only appended to',
     ('lookup_colno', 'self.newline_idx[lineno - 1]'):
         'lineno comes from tokens of this lexer: 1 <= lineno <= '
         'len(newline_idx) (one entry appended per counted terminator)',
-    ('_token', 'self.token_stack[-1]'):
-        'token_stack is initialised to [[None, []]]; the only pop is '
-        'followed in the same call by the emptiness check that raises',
-    ('_token', 'self.token_stack[-1][0]'): 'pairs are always [token, list]',
-    ('_set_tokens', 'self.token_stack[-1]'): 'as above',
-    ('_get_update_token', 'self.token_stack[-1]'): 'as above',
-    ('_get_update_token', 'self.token_stack[-1][1]'): 'as above',
     ('t_error', 'token.value[0]'):
         'ply calls t_error with the non-empty remainder of the input',
     ('_raise_syntax_error', 'msg[len(tokens)]'):
@@ -61,6 +52,90 @@ TRIAGE_PARTIAL = {
         'ProductionError is only raised with one argument (checked by '
         'R12.1)',
 }
+
+
+def nonempty_list_attrs(module, clsname):
+    """Instance attributes of `clsname` that provably always hold a
+    non-empty list: every store assigns a non-empty list literal, every
+    mutation through self.<attr> is an append / extend / item store, or a
+    pop() that is followed, later in the same function, by
+    `if not self.<attr>: raise ...`.  Returns {attr: element width}, where
+    the width is n if every element ever stored is an n-element list /
+    tuple literal (else None)."""
+    from engine.effects import iter_functions, own_nodes
+    stores, widths, bad = {}, {}, set()
+
+    def elem_width(e):
+        if isinstance(e, (ast.List, ast.Tuple)):
+            return len(e.elts)
+        return None
+    funcs = [(c, f) for c, f, _ in iter_functions(module) if c == clsname]
+    for c, f in funcs:
+        for n in own_nodes(f):
+            if isinstance(n, ast.Assign):
+                for t in n.targets:
+                    if isinstance(t, ast.Attribute) and isinstance(
+                            t.value, ast.Name) and t.value.id == 'self':
+                        if isinstance(n.value, ast.List) and n.value.elts:
+                            stores.setdefault(t.attr, []).append(n.value)
+                            for e in n.value.elts:
+                                widths.setdefault(t.attr, set()).add(
+                                    elem_width(e))
+                        else:
+                            bad.add(t.attr)
+            if isinstance(n, (ast.Delete, ast.AugAssign)):
+                for x in ast.walk(n):
+                    if isinstance(x, ast.Attribute) and isinstance(
+                            x.value, ast.Name) and x.value.id == 'self':
+                        bad.add(x.attr)
+    for c, f in funcs:
+        calls = [n for n in own_nodes(f) if isinstance(n, ast.Call) and
+                 isinstance(n.func, ast.Attribute) and isinstance(
+                     n.func.value, ast.Attribute) and isinstance(
+                     n.func.value.value, ast.Name) and
+                 n.func.value.value.id == 'self']
+        for n in calls:
+            attr = n.func.value.attr
+            m = n.func.attr
+            if m == 'append' and len(n.args) == 1:
+                widths.setdefault(attr, set()).add(elem_width(n.args[0]))
+            elif m in ('extend', 'insert', 'index', 'count', 'copy'):
+                widths.setdefault(attr, set()).add(None)
+            elif m == 'pop':
+                # must be followed by the emptiness check that raises
+                ok = False
+                for st in own_nodes(f):
+                    if isinstance(st, ast.If) and st.lineno > n.lineno and \
+                            ast.unparse(st.test) == 'not self.%s' % attr \
+                            and always_raises(st.body):
+                        ok = True
+                if not ok:
+                    bad.add(attr)
+            elif m in ('clear', 'remove', 'sort', 'reverse'):
+                bad.add(attr)
+    out = {}
+    for attr, vals in stores.items():
+        if attr in bad:
+            continue
+        w = widths.get(attr, set())
+        out[attr] = next(iter(w)) if len(w) == 1 and None not in w else None
+    return out
+
+
+def invariant_discharges(text, invariants):
+    """is the subscript `text` safe by the non-empty-list invariant?
+    self.a[-1], self.a[0]; self.a[-1][k] with k below the element width"""
+    import re as _re
+    m = _re.fullmatch(r'self\.(\w+)\[(-1|0)\](?:\[(\d+)\])?', text)
+    if not m or m.group(1) not in invariants:
+        return None
+    if m.group(3) is None:
+        return 'self.%s is never empty (checked invariant)' % m.group(1)
+    w = invariants[m.group(1)]
+    if w is not None and int(m.group(3)) < w:
+        return 'every element of self.%s is a %d-element list (checked ' \
+            'invariant)' % (m.group(1), w)
+    return None
 
 
 def always_raises(stmts):
@@ -409,6 +484,13 @@ def run(report, index, tier):
     # R12.3 ---------------------------------------------------------------
     r3 = report.rule('R12.3', 'partial operations on input-derived values '
                      'are guarded or triaged', floor=15)
+    invariants = {}
+    for m_ in (lm, pm):
+        for cname in m_.classes:
+            invariants[cname] = nonempty_list_attrs(m_, cname)
+    report.count('never-empty list attributes (checked invariant)',
+                 ', '.join('%s.%s' % (c, a) for c, d in sorted(
+                     invariants.items()) for a in sorted(d)))
     for m, cls, f in allfuncs:
         if f.name.startswith('p_') and f.name != 'p_error':
             continue
@@ -485,7 +567,10 @@ def run(report, index, tier):
                                 % (name, ast.unparse(slices[name]), need),
                                 where=where)
                     continue
-                if (f.name, t) in TRIAGE_PARTIAL:
+                inv = invariant_discharges(t, invariants.get(cls, {}))
+                if inv is not None:
+                    r3.ok(construct, inv)
+                elif (f.name, t) in TRIAGE_PARTIAL:
                     r3.ok(construct, 'triaged: ' + TRIAGE_PARTIAL[
                         (f.name, t)])
                 else:
